@@ -174,7 +174,8 @@ REGISTRY["C12"] = {
     "engine": "engine_conv",
     "theorems": [(A + "Conv", "Api.Conv.C12_registered_square"), (A + "Conv", "Api.Conv.C12_registration_order"), (A + "Conv", "Api.Conv.C12_dynamic_square"),
                  (A + "Conv", "Api.Conv.C12_identity"), (A + "Conv", "Api.Conv.C12_locality"), (A + "Conv", "Api.Conv.C12_through_optional"),
-                 (A + "Conv", "Api.Conv.C12_through_list"), (A + "Conv", "Api.Conv.C12_rejects")],
+                 (A + "Conv", "Api.Conv.C12_through_list"), (A + "Conv", "Api.Conv.C12_rejects"),
+                 (A + "Conv", "Api.Conv.C12_own_serializer"), (A + "Conv", "Api.Conv.C12_inherits"), (A + "Conv", "Api.Conv.C12_not_inherited_is_skipped")],
     "model_is_spec": True,
     "partial": "deserialization side of the resolution (dynamic before registered, identity, registration order, locality, containers) is stated on a "
                "model whose data, values and converters are opaque; the serialization squares, inherited serializers, schemas, generic and lazy "
